@@ -611,4 +611,25 @@ def gen_listing() -> typing.Tuple[bool, str]:
     return True, 'ok'
 
 
-GENERATORS = {'listing': gen_listing}
+# ---------------------------------------------------------------------------------------------
+# shape pin of the enumeration logic that Gen/Listing.v models by hand (listed_templates, chain, resolve_name, support_resources)
+# ---------------------------------------------------------------------------------------------
+ENUM_PIN = [
+    ('src/nunavut/jinja/loaders.py', 'DSDLTemplateLoader.__init__'),
+    ('src/nunavut/jinja/loaders.py', 'DSDLTemplateLoader.get_source'),
+    ('src/nunavut/jinja/loaders.py', 'DSDLTemplateLoader.get_templates'),
+    ('src/nunavut/jinja/loaders.py', 'DSDLTemplateLoader._filter_template_list_by_suffix'),
+    ('src/nunavut/jinja/__init__.py', 'CodeGenerator.get_templates'),
+    ('src/nunavut/jinja/__init__.py', 'SupportGenerator.get_templates'),
+    ('src/nunavut/jinja/__init__.py', 'SupportGenerator._get_templates_by_support_type'),
+    ('src/nunavut/lang/_language.py', 'Language.get_support_files'),
+    ('src/nunavut/_utilities.py', 'iter_package_resources'),
+]
+
+
+def pin_c08_enum() -> typing.Tuple[bool, str]:
+    from . import shape_pin
+    return shape_pin.check_pin('c08_enum', ENUM_PIN)
+
+
+GENERATORS = {'listing': gen_listing, 'pin_c08_enum': pin_c08_enum}
